@@ -47,7 +47,14 @@ pub enum Op {
     UpDown { up: bool, name: String },
     Flags { which: u8, on: bool },
     /// a conflicting response / winning probe for the control registration's current names
-    Conflict { host: bool, probe: bool },
+    Conflict {
+        host: bool,
+        probe: bool,
+        /// what the authority section of a probe holds: 0 records that differ from the daemon's, 1 only a
+        /// record of another name, 2 a strict prefix of the daemon's own records, 3 its records and one more
+        #[serde(default)]
+        shape: u8,
+    },
     /// a datagram: hex bytes
     Packet { k: usize, v6: bool, hex: String },
     Advance { ms: u64 },
@@ -280,7 +287,7 @@ pub fn check(case: &Case, ctx: &mut CaseCtx) {
                 dm,
                 &mut caller_panic,
             ),
-            Op::Conflict { host, probe } => {
+            Op::Conflict { host, probe, shape } => {
                 // a further control registration with the same (possibly overflowing) label and a
                 // host label of the same kind is attacked while it is still probing
                 n_ctl2 += 1;
@@ -307,6 +314,18 @@ pub fn check(case: &Case, ctx: &mut CaseCtx) {
                         Record { name: inst.clone(), rtype: T_TXT, class: 1 | FLUSH, ttl: 4500, rdata: RData::Txt(b"\x03z=z".to_vec()) },
                         Record { name: inst.clone(), rtype: T_SRV, class: 1 | FLUSH, ttl: 120, rdata: RData::Srv { priority: 9, weight: 9, port: 9999, target: Name::from_escaped("zzz.local.") } },
                     ]
+                };
+                let own_txt = Record { name: inst.clone(), rtype: T_TXT, class: 1 | FLUSH, ttl: 4500, rdata: RData::Txt(b"\x03k=v".to_vec()) };
+                let own_srv = Record { name: inst.clone(), rtype: T_SRV, class: 1 | FLUSH, ttl: 120, rdata: RData::Srv { priority: 0, weight: 0, port: 4001, target: hostn.clone() } };
+                let recs = match (*probe, *shape % 4) {
+                    (true, 1) => vec![peer::addr_rec(&Name::from_escaped("somebody-else.local."), peer_ip, 120, false)],
+                    (true, 2) if !*host => vec![own_txt],
+                    (true, 3) if !*host => {
+                        let mut v = vec![own_txt, own_srv];
+                        v.extend(recs);
+                        v
+                    }
+                    _ => recs,
                 };
                 let bytes = if *probe {
                     peer::query(0, vec![peer::q(if *host { &hostn } else { &inst }, T_ANY)], vec![], recs)
@@ -560,7 +579,7 @@ fn api_op() -> BoxedStrategy<Op> {
         1 => prop_oneof![Just(0u32), Just(1), Just(u32::MAX), any::<u32>()].prop_map(Op::IpCheck),
         2 => (any::<bool>(), ifsel).prop_map(|(enable, sel)| Op::Interface { enable, sel }),
         1 => (0u8..4, any::<bool>()).prop_map(|(which, on)| Op::Flags { which, on }),
-        2 => (any::<bool>(), any::<bool>()).prop_map(|(host, probe)| Op::Conflict { host, probe }),
+        2 => (any::<bool>(), any::<bool>(), 0u8..4).prop_map(|(host, probe, shape)| Op::Conflict { host, probe, shape }),
         3 => prop_oneof![Just(0u64), Just(250), Just(1000), 0u64..4000].prop_map(|ms| Op::Advance { ms }),
     ]
     .boxed()
@@ -671,7 +690,7 @@ pub fn api_strategy() -> BoxedStrategy<Case> {
 pub fn packet_strategy() -> BoxedStrategy<Case> {
     let op = prop_oneof![
         10 => packet_op(),
-        1 => (any::<bool>(), any::<bool>()).prop_map(|(host, probe)| Op::Conflict { host, probe }),
+        1 => (any::<bool>(), any::<bool>(), 0u8..4).prop_map(|(host, probe, shape)| Op::Conflict { host, probe, shape }),
         2 => prop_oneof![Just(0u64), Just(500), Just(1000), 0u64..3000].prop_map(|ms| Op::Advance { ms }),
         1 => api_op(),
     ];
